@@ -56,6 +56,9 @@ pub fn copy_region(mid: usize, src: RootRef, sstart: u16, dst: RootRef, dstart: 
         let d = w.objs.get_mut(&did).unwrap();
         let unmoved = matches!(d.sem, SEM_IMMORTAL | SEM_NONMOVING);
         for (i, v) in vals.iter().enumerate() {
+            if crate::world::watch_id() != 0 && d.fields[ds + i] == crate::world::watch_id() {
+                eprintln!("WATCHID copy_region overwrites field {} of object {} ({} -> {}) mutator {} mode {}", ds + i, did, d.fields[ds + i], v, mid, mode);
+            }
             d.fields[ds + i] = *v;
         }
         if unmoved && vals.iter().any(|v| *v != 0) {
